@@ -149,6 +149,19 @@ inline void run(hz::Reader &rd, bool allow_self_stop) {
             while (!c.t_stop_end && !c.pool->is_stopped()) { vrt::yield(); HZ_CHECK(++spins < 20000, "self-stop job never ran"); }
             while (!c.t_stop_end && spins < 40000) { vrt::yield(); spins++; }
         }
+        // a submission made after stop() had returned must be settled at once - it must not
+        // hang until the pool object is destroyed
+        if ((p.stop_who == 1 || p.stop_who == 3) && c.t_stop_end) {
+            size_t ci = 0, fi = 0;
+            for (size_t i = 0; i < c.j.size(); i++) {
+                JRec &r = c.j[i];
+                bool is_co = r.kind == K_COAWAIT || r.kind == K_COAWAIT_AWT_READY || r.kind == K_COAWAIT_AWT_PENDING || r.kind == K_RESUME_SP;
+                bool is_fut = r.kind == K_RUN_FN || r.kind == K_RUN_ASYNC;
+                bool after_stop = r.t_submit_end > c.t_stop_end && i >= p.stop_pos;
+                if (is_co) { if (after_stop) HZ_CHECK(c.co_done[ci]->ready(), "job %zu (kind %d) was submitted after stop() had returned and is still pending (would hang until the pool is destroyed)", i, r.kind); ci++; }
+                if (is_fut) { if (after_stop) HZ_CHECK(c.int_futs[fi]->ready(), "job %zu (kind %d): future of a submission made after stop() had returned is still pending", i, r.kind); fi++; }
+            }
+        }
         if (!c.t_stop_begin) c.t_stop_begin = hz::tick();
         c.pool.reset();                       // destructor: stop + join, must not deadlock
         if (!c.t_stop_end) c.t_stop_end = hz::tick();
